@@ -270,6 +270,12 @@ def Ex.update (x : Ext) : Ex → List Cell → Pt → List Cell × List Cell × 
       else
         (cs.take 1 ++ v', rest, x.quant (h0.getD zero) pv, false)
 
+/-- merge of two optional leaf values: unset ⊕ y = y, x ⊕ unset = x -/
+def mergeOpt {α : Type} (f : α → α → α) : Option α → Option α → Option α
+  | none, y => y
+  | some x, none => some x
+  | some x, some y => some (f x y)
+
 /-- `Expr.Merge(b, x, y)` on values: merged cells, remaining x, remaining y. -/
 def Ex.merge : Ex → List Cell → List Cell → List Cell × List Cell × List Cell
   | .field _, xs, ys => ([], xs, ys)
@@ -277,21 +283,11 @@ def Ex.merge : Ex → List Cell → List Cell → List Cell × List Cell × List
   | .agg k _, xs, ys =>
       let xv := match xs.head? with | some (.agg v) => v | _ => none
       let yv := match ys.head? with | some (.agg v) => v | _ => none
-      let out := match xv, yv with
-        | none, none => none
-        | none, some y => some y
-        | some x, none => some x
-        | some x, some y => some (aggMerge k true x y)
-      ([.agg out], xs.drop 1, ys.drop 1)
+      ([.agg (mergeOpt (aggMerge k true) xv yv)], xs.drop 1, ys.drop 1)
   | .avg _ _, xs, ys =>
       let xv := match xs.head? with | some (.avg v) => v | _ => none
       let yv := match ys.head? with | some (.avg v) => v | _ => none
-      let out := match xv, yv with
-        | none, none => none
-        | none, some y => some y
-        | some x, none => some x
-        | some (cx, tx), some (cy, ty) => some (cx + cy, tx + ty)
-      ([.avg out], xs.drop 1, ys.drop 1)
+      ([.avg (mergeOpt (fun a b => (a.1 + b.1, a.2 + b.2)) xv yv)], xs.drop 1, ys.drop 1)
   | .bin _ l r, xs, ys =>
       let (lo, xs, ys) := l.merge xs ys
       let (ro, xs, ys) := r.merge xs ys
@@ -303,12 +299,7 @@ def Ex.merge : Ex → List Cell → List Cell → List Cell × List Cell × List
   | .ptile _ _ _ _, xs, ys =>
       let xv := match xs.head? with | some (.hist v) => v | _ => none
       let yv := match ys.head? with | some (.hist v) => v | _ => none
-      let out := match xv, yv with
-        | none, none => none
-        | none, some y => some y
-        | some x, none => some x
-        | some x, some y => some (addCounts x y)
-      ([.hist out], xs.drop 1, ys.drop 1)
+      ([.hist (mergeOpt addCounts xv yv)], xs.drop 1, ys.drop 1)
 
 /-- the empty (all-zero bytes) state of an expression -/
 def Ex.empty : Ex → List Cell
